@@ -191,16 +191,21 @@ def trajectory_part(ck: Check, rnd):
     from hiten import System
     from hiten.algorithms.common.energy import crtbp_energy, energy_to_jacobi
     cs = ContractSet(ck, "energy_along_trajectories")
-    sysd = {"earth-moon": System.from_bodies("earth", "moon")}
+    # several systems alive in one process, two of them built by from_mu (same body names, different mu): every
+    # propagation must use the mass parameter of ITS system
+    sysd = {"earth-moon": System.from_bodies("earth", "moon"), "mu=0.3": System.from_mu(0.3), "mu=0.04": System.from_mu(0.04)}
     if not ck.quick:
         sysd["sun-jupiter"] = System.from_bodies("sun", "jupiter")
-        sysd["mu=0.3"] = System.from_mu(0.3)
+        sysd["mu=0.5"] = System.from_mu(0.5)
     methods = [("fixed", 4), ("fixed", 6), ("fixed", 8), ("adaptive", 5), ("adaptive", 8)]
-    ics = {"planar": [0.8, 0.05, 0.0, 0.0, 0.2, 0.0], "spatial": [0.8, 0.05, 0.1, 0.0, 0.2, 0.1]}
+    methods_of = lambda sname: methods if (sname == "earth-moon" or not ck.quick) else [("fixed", 8), ("adaptive", 8)]
+    # initial states well away from both primaries for every mu (near the triangular region, distance ~0.8 to each)
+    ics_of = lambda mu: {"planar": [0.55 - mu, 0.7, 0.0, 0.05, -0.1, 0.0], "spatial": [0.55 - mu, 0.7, 0.1, 0.05, -0.1, 0.08]}
     for sname, system in sysd.items():
-        for (method, order), fwd, (kind, ic) in itertools.product(methods, (1, -1), ics.items()):
+        ics = ics_of(float(system.mu))
+        for (method, order), fwd, (kind, ic) in itertools.product(methods_of(sname), (1, -1), ics.items()):
             label = f"{sname}|{method}{order}|forward={fwd}|{kind}"
-            bound = -60 if (method == "fixed" and order == 4) else -80
+            bound = -55 if (method == "fixed" and order == 4) else -75
             t = cs.trace(label, {"energy_drift": bound, "jacobi_plus_2E": -130},
                          {"system": sname, "method": method, "order": order, "forward": fwd, "kind": kind, "ic": ic})
             ck.count(("traj", label), True)
@@ -214,7 +219,7 @@ def trajectory_part(ck: Check, rnd):
         t = cs.trace(f"{sname}|object-reported-energy", {"orbit_energy_binding": -130, "orbit_jacobi_binding": -130, "point_energy_binding": -130},
                      {"system": sname, "kind": "objects"})
         ck.count(("objects", sname), True)
-        for kind, ic in ics.items():
+        for kind, ic in ics_of(float(system.mu)).items():
             orb = L.create_orbit("generic", initial_state=list(ic))
             e_ref = crtbp_energy(np.asarray(ic, dtype=float), system.mu)
             cs.obs(t, "orbit_energy_binding", abs(float(orb.energy) - e_ref))
